@@ -33,7 +33,7 @@ TREES = {
     # plain optimised tree with hooks (throughput-bound monitors, compile mode)
     "plain": dict(
         cxx=CLANGXX, cc=CLANG,
-        flags="-O1 -fno-omit-frame-pointer -D" + GUARD,
+        flags="-O1 -fno-omit-frame-pointer -D_GLIBCXX_ASSERTIONS -D" + GUARD,
         extra=["-DSOUFFLE_USE_LIBCPP=OFF"],
     ),
 }
